@@ -67,15 +67,15 @@ EXTRA = {
  "C09": "; directory pruning stops strictly below the bucket directory; Copy does not mix source and destination names; any return on an unreadable sidecar excludes not-exist first; siblings use the same named parameters; scrubbed fields are recomputed; directory entries never reach the per-object listing logic",
  "C10": "; the locked object is not read back after its lock was released; every mutator in its matching critical section; stored records immutable",
  "C11": "; recorded names carry the requested prefix; walk callback examines its error first; sibling parameter use; directory entries never reach the per-object listing logic",
- "C12": "; copyRow depth; no row deletion from inside an iteration; isEmpty answers on the evidence of a cell",
+ "C12": "; the branch selector is an emptiness test on every path; cells are never edited in place; copyRow depth; no row deletion from inside an iteration; isEmpty answers on the evidence of a cell",
  "C13": "; timestamps from the injectable clock; column lookups do not rely on qualifier order; appendOrReplaceCell uniqueness conditions; read and write-back of every row RPC under one hold; the written timestamp depends on the newest existing cell",
  "C14": "; registry check-then-act under one hold; no nil scan bound; rows closed only at shutdown; the ListTables parent prefix includes the /tables/ separator",
  "C15": "; no copy loop over a just-made map; no nested object locks; decode target is not a shallow copy of a store object; stored records immutable",
  "C16": "; the write-back flag of a GC pass is monotone over the columns; GC cut-offs from the injectable clock; every row store stamps the write-activity clock; engine methods have only their own effect and take no locks",
  "C17": "; dispatch shape; engine contracts (reopen passes nuke, Create wipes, single-effect methods, no engine locks, Close only at shutdown)",
- "C18": "; every table.rows access under the lock; no stale GC write-back; store only on success; engines take no locks; rows closed only at shutdown; sent buffers not recycled",
+ "C18": "; no value-receiver field assignment in the chunk builder; read and write-back of the row RPCs under one hold; every table.rows access under the lock; no stale GC write-back; store only on success; engines take no locks; rows closed only at shutdown; sent buffers not recycled",
  "C19": "; Run cannot return on the acquired edge without the deferred unlock; decrement and eviction in one hold",
- "C20": "; guarded-map check-then-act, nested object locks, use after ownership transfer, carried-over scratch values, engine locks / Close, in-place record updates",
+ "C20": "; Content-Length agrees with every body write; every table is built around a non-nil family map; guarded-map check-then-act, nested object locks, use after ownership transfer, carried-over scratch values, engine locks / Close, in-place record updates",
 }
 checks=[]
 for p in props:
